@@ -28,6 +28,7 @@ inductive Reachable : FileSt → Prop
   | mig (n : Nat) (orc : List Outcome) {s : FileSt} : Reachable s → Reachable (migOp n s orc).1.st
   | recon (orc : List Outcome) {s : FileSt} : Reachable s → Reachable (recOp s orc).1.st
   | scan (orc : List Outcome) {s : FileSt} : Reachable s → Reachable (scanOp s orc).1.st
+  | age {s : FileSt} : Reachable s → Reachable (ageOp s)   -- more than the 48 h reconcile window passes
 
 /-! ## visibility through the abstraction -/
 
@@ -69,9 +70,16 @@ hot, a complete cold copy exists as well (cold orphan), and the measurement has 
 def coldOrphan (sibCold : Bool) (a : Abs) : Bool :=
   decide (a.tier = Tier.hot) && a.hot && a.cold && sibCold
 
+/-- … and the second kind: a hot orphan (metadata cold, complete copies in both tiers) whose
+`migrated_at` is older than the reconcile window, in a measurement that has other hot files.
+`ReconcileOrphanedFiles` never looks at it; what removes it is the next CYCLE, whose scan
+re-registers the hot object as hot and gets it re-migrated (`C12_once_cycle`). -/
+def staleHotOrphan (sibHot : Bool) (a : Abs) : Bool :=
+  decide (a.tier = Tier.cold) && a.hot && a.cold && !a.recent && sibHot
+
 def OnceRecPartial : Bool :=
   allAbs.all fun a => !a.inv || bools.all fun sh => bools.all fun sc =>
-    coldOrphan sc (absRecOk a) || decide (visAbs sh sc (absRecOk a) = 1)
+    coldOrphan sc (absRecOk a) || staleHotOrphan sh (absRecOk a) || decide (visAbs sh sc (absRecOk a) = 1)
 
 /-- A fault-free cycle (generated phase order) ends with exactly one visible copy. -/
 def OnceCycle : Bool :=
@@ -139,6 +147,7 @@ theorem reachable_inv {s : FileSt} (h : Reachable s) : (absOf s).inv = true := b
   | mig n orc _ ih => exact mig_inv n _ orc ih
   | recon orc _ ih => exact rec_inv _ orc ih
   | scan orc _ ih => exact scan_inv _ orc ih
+  | age _ ih => exact ih
 
 theorem bools_mem (b : Bool) : b ∈ bools := by cases b <;> simp [bools]
 
@@ -251,18 +260,23 @@ theorem C12_once_witness :
     let r := recOp s1 []
     (migOp 1 init crashBeforeMeta).2 = some Exit.crash ∧ Reachable s1 ∧ Finished s1 r.1.st ∧
     r.2 = { found := 0, deleted := 0, errors := 0, crashed := false } ∧
-    r.1.st = { hot := true, cold := true, part := none, tier := .hot, pend := 1 } ∧
+    r.1.st = { hot := true, cold := true, part := none, tier := .hot, pend := 1, recent := false } ∧
     visibleCopies false true r.1.st = 2 ∧ visibleCopies true true r.1.st = 2 := by
   refine ⟨by decide, Reachable.mig 1 _ Reachable.init, ?_, by decide, by decide, by decide, by decide⟩
   exact Finished.reconciliation [] allOk_nil
 
 /-- **C12_once_reconcile_partial.** Once a reconciliation has run to completion without a fault it
-reports no error, and queries see each row exactly once — EXCEPT when the file is left as a cold
-orphan (metadata hot, complete copies in both tiers) in a measurement that has other cold files. -/
+reports no error, and queries see each row exactly once — EXCEPT (`hcarve`, the known finding) when
+the file is left as a cold orphan (metadata hot, complete copies in both tiers) in a measurement
+that has other cold files, and EXCEPT (`hwin`, the stated window assumption) when it is a hot orphan
+whose `migrated_at` is older than the 48 h window in a measurement with other hot files — that one is
+not reconciliation's job: the scan + re-migration of the next cycle removes it (`C12_once_cycle`). -/
 theorem C12_once_reconcile_partial (orc : List Outcome) {s : FileSt} (h : Reachable s) (hok : AllOk orc)
     (sibHot sibCold : Bool)
     (hcarve : ¬ ((recOp s orc).1.st.tier = Tier.hot ∧ (recOp s orc).1.st.hot = true ∧
-                 (recOp s orc).1.st.cold = true ∧ sibCold = true)) :
+                 (recOp s orc).1.st.cold = true ∧ sibCold = true))
+    (hwin : ¬ ((recOp s orc).1.st.tier = Tier.cold ∧ (recOp s orc).1.st.hot = true ∧
+               (recOp s orc).1.st.cold = true ∧ (recOp s orc).1.st.recent = false ∧ sibHot = true)) :
     (recOp s orc).2.errors = 0 ∧ (recOp s orc).2.crashed = false ∧
     visibleCopies sibHot sibCold (recOp s orc).1.st = 1 := by
   have hi := reachable_inv h
@@ -273,24 +287,33 @@ theorem C12_once_reconcile_partial (orc : List Outcome) {s : FileSt} (h : Reacha
   have := List.all_eq_true.mp (List.all_eq_true.mp ho sibHot (bools_mem _)) sibCold (bools_mem _)
   rw [visible_eq_visAbs, h4]
   rcases Bool.or_eq_true_iff.mp this with hco | hv
-  · exfalso
-    apply hcarve
-    rw [← h4] at hco
-    unfold coldOrphan absOf at hco
-    simp only [Bool.and_eq_true, decide_eq_true_eq] at hco
-    exact ⟨hco.1.1.1, hco.1.1.2, hco.1.2, hco.2⟩
+  · rcases Bool.or_eq_true_iff.mp hco with hco | hst
+    · exfalso
+      apply hcarve
+      rw [← h4] at hco
+      unfold coldOrphan absOf at hco
+      simp only [Bool.and_eq_true, decide_eq_true_eq] at hco
+      exact ⟨hco.1.1.1, hco.1.1.2, hco.1.2, hco.2⟩
+    · exfalso
+      apply hwin
+      rw [← h4] at hst
+      unfold staleHotOrphan absOf at hst
+      simp only [Bool.and_eq_true, decide_eq_true_eq, Bool.not_eq_true'] at hst
+      exact ⟨hst.1.1.1.1, hst.1.1.1.2, hst.1.1.2, hst.1.2, hst.2⟩
   · exact of_decide_eq_true hv
 
 /-- **C12_once_partial.** Once the migration or the orphan reconciliation has finished, queries see
 each row exactly once, unless the finished operation leaves a cold orphan (metadata hot, complete
-copies in both tiers) in a measurement that has other cold files. By `C12_once_migration` the
-exception can only arise on the reconciliation branch. -/
+copies in both tiers) in a measurement that has other cold files, or a hot orphan older than the
+reconcile window (see `C12_once_reconcile_partial`). By `C12_once_migration` the exceptions can only
+arise on the reconciliation branch; `C12_once_cycle` has no exception at all. -/
 theorem C12_once_partial {s s' : FileSt} (h : Reachable s) (hf : Finished s s') (sibHot sibCold : Bool)
-    (hcarve : ¬ (s'.tier = Tier.hot ∧ s'.hot = true ∧ s'.cold = true ∧ sibCold = true)) :
+    (hcarve : ¬ (s'.tier = Tier.hot ∧ s'.hot = true ∧ s'.cold = true ∧ sibCold = true))
+    (hwin : ¬ (s'.tier = Tier.cold ∧ s'.hot = true ∧ s'.cold = true ∧ s'.recent = false ∧ sibHot = true)) :
     visibleCopies sibHot sibCold s' = 1 := by
   cases hf with
   | migration n orc hc hok => exact (C12_once_migration n orc h hc hok sibHot sibCold).2
-  | reconciliation orc hok => exact (C12_once_reconcile_partial orc h hok sibHot sibCold hcarve).2.2
+  | reconciliation orc hok => exact (C12_once_reconcile_partial orc h hok sibHot sibCold hcarve hwin).2.2
 
 /-- **C12_once_cycle.** A fault-free `RunMigrationCycle` (scan, migrate, reconcile in the source's
 order) from ANY reachable state — in particular from the cold-orphan state of the witness — ends
@@ -323,10 +346,12 @@ inductive ReachableFix : FileSt → Prop
   | mig (n : Nat) (orc : List Outcome) {s : FileSt} : ReachableFix s → ReachableFix (migOp n s orc).1.st
   | recon (orc : List Outcome) {s : FileSt} : ReachableFix s → ReachableFix (recFixOp s orc).1.st
   | scan (orc : List Outcome) {s : FileSt} : ReachableFix s → ReachableFix (scanOp s orc).1.st
+  | age {s : FileSt} : ReachableFix s → ReachableFix (ageOp s)
 
 def SafeRecFix : Bool := allAbs.all fun a => !a.inv || (absRecFix a).all Abs.inv
 def OnceRecFix : Bool :=
-  allAbs.all fun a => !a.inv || bools.all fun sh => bools.all fun sc => decide (visAbs sh sc (absRecFixOk a) = 1)
+  allAbs.all fun a => !a.inv || (decide (a.tier = Tier.cold) && !a.recent) ||
+    bools.all fun sh => bools.all fun sc => decide (visAbs sh sc (absRecFixOk a) = 1)
 
 theorem repair_obligations : SafeRecFix = true ∧ OnceRecFix = true := by decide
 
@@ -340,6 +365,7 @@ theorem reachableFix_inv {s : FileSt} (h : ReachableFix s) : (absOf s).inv = tru
     simp only [ih, Bool.not_true, Bool.false_or] at h1
     exact inv_of_all h1 (recFixOp_sim s orc)
   | scan orc _ ih => exact scan_inv _ orc ih
+  | age _ ih => exact ih
 
 /-- **C12_repaired_readable.** The repair keeps the readable clause. -/
 theorem C12_repaired_readable {s : FileSt} (h : ReachableFix s) :
@@ -352,9 +378,10 @@ theorem C12_repaired_readable {s : FileSt} (h : ReachableFix s) :
 
 /-- **C12_repaired_once.** With the repair, the full clause holds: once the (repaired)
 reconciliation has finished without a fault — from any state reachable through any crashes and
-failures — queries see each row exactly once, with no carve-out. (The migration half is
+failures, within the reconcile window — queries see each row exactly once, with no carve-out. (The migration half is
 `C12_once_migration`, whose proof only uses the invariant and applies verbatim.) -/
 theorem C12_repaired_once (orc : List Outcome) {s : FileSt} (h : ReachableFix s) (hok : AllOk orc)
+    (hwin : s.tier = Tier.cold → s.recent = true)   -- reconciliation runs inside the 48 h window
     (sibHot sibCold : Bool) :
     (recFixOp s orc).2.errors = 0 ∧ (recFixOp s orc).2.crashed = false ∧
     visibleCopies sibHot sibCold (recFixOp s orc).1.st = 1 := by
@@ -363,6 +390,12 @@ theorem C12_repaired_once (orc : List Outcome) {s : FileSt} (h : ReachableFix s)
   refine ⟨h1, h2, ?_⟩
   have ho := List.all_eq_true.mp repair_obligations.2 (absOf s) (mem_allAbs _)
   simp only [hi, Bool.not_true, Bool.false_or] at ho
+  rcases Bool.or_eq_true_iff.mp ho with hst | ho
+  · exfalso
+    unfold absOf at hst
+    simp only [Bool.and_eq_true, decide_eq_true_eq, Bool.not_eq_true'] at hst
+    rw [hwin hst.1] at hst
+    exact absurd hst.2 (by decide)
   rw [visible_eq_visAbs, h3]
   exact of_decide_eq_true
     (List.all_eq_true.mp (List.all_eq_true.mp ho sibHot (bools_mem _)) sibCold (bools_mem _))
@@ -374,14 +407,14 @@ roll-back delete failed too, then a retry crashed in the middle of the copy of a
 example :
     let s1 := (migOp 3 init [.ok, .ok, .ok, .ok, .ok, .ok, .fail, .fail]).1.st
     let s2 := (migOp 3 s1 [.ok, .ok, .ok, .crash]).1.st
-    Reachable s2 ∧ s2 = { hot := true, cold := true, part := some 1, tier := .hot, pend := 2 } := by
+    Reachable s2 ∧ s2 = { hot := true, cold := true, part := some 1, tier := .hot, pend := 2, recent := false } := by
   refine ⟨Reachable.mig 3 _ (Reachable.mig 3 _ Reachable.init), by decide⟩
 
 /-- `C12_once_migration`: hypotheses satisfiable from a state reached through a crash (retry). -/
 example :
     let s1 := (migOp 2 init [.ok, .ok, .ok, .crash]).1.st
     Reachable s1 ∧ s1.tier = srcTier ∧ AllOk [Outcome.ok, Outcome.ok] ∧
-    (migOp 2 s1 [.ok, .ok]).1.st = { hot := false, cold := true, part := none, tier := .cold, pend := 1 } := by
+    (migOp 2 s1 [.ok, .ok]).1.st = { hot := false, cold := true, part := none, tier := .cold, pend := 1, recent := true } := by
   refine ⟨Reachable.mig 2 _ Reachable.init, by decide, ?_, by decide⟩
   intro x hx; simp at hx; exact hx
 
@@ -399,6 +432,15 @@ example :
     let s1 := (migOp 1 init [.ok, .ok, .ok, .ok, .crash]).1.st
     ReachableFix s1 ∧ visibleCopies false true s1 = 2 ∧ visibleCopies false true (recFixOp s1 []).1.st = 1 := by
   refine ⟨ReachableFix.mig 1 _ ReachableFix.init, by decide, by decide⟩
+
+/-- `hwin` is a real exception of the reconciliation clause and `C12_once_cycle` covers it: a crash
+after the metadata update but before the hot delete, then > 48 h without a cycle. Reconciliation
+alone leaves two visible copies; the next clean cycle (scan re-registers hot, re-migration) leaves one. -/
+example :
+    let s1 := ageOp (migOp 1 init [.ok, .ok, .ok, .ok, .ok, .crash]).1.st
+    Reachable s1 ∧ visibleCopies true false (recOp s1 []).1.st = 2 ∧
+    visibleCopies true false (cycleOp 1 s1 []).1 = 1 := by
+  refine ⟨Reachable.age (Reachable.mig 1 _ Reachable.init), by decide, by decide⟩
 
 /-- `C12_once_cycle`: from the witness's cold-orphan state a clean cycle restores exactly-once. -/
 example :
